@@ -25,27 +25,27 @@ Proof. intros ts e H. destruct (parsed_roundtrip_closed ts e H) as (A & _ & B). 
 
 (* a tree that already carries the parentheses the grammar needs, and no doubled ones, is re-read as itself *)
 Theorem C19_print_parse_roundtrip_parsed_partial : forall e,
-  validb e = true -> posokb e = true -> noaddb e = true -> parse (pr e) = ROk (PE e) [].
+  validb e = true -> lamokb e = true -> noaddb e = true -> parse (pr e) = ROk (PE e) [].
 Proof.
-  intros e V K A. rewrite <- (norm_id (sz e) e (le_n _) A) at 2. now apply roundtrip_closed.
+  intros e V K A. rewrite <- (norm_id (sz e) e (le_n _) A) at 2. now apply roundtrip_lamok_closed.
 Qed.
 
 (* without the shape of parser output the tree changes: the printer inserts parentheses (a ParenExpr appears) *)
 Theorem C19_needs_parser_shape_refuted :
   let e := EBin xgo_MUL (EBin xgo_ADD (EId [97%N]) (EId [98%N])) (EId [99%N]) in
-  validb e = true /\ posokb e = true /\ noaddb e = false /\ exists e', parse (pr e) = ROk (PE e') [] /\ e' <> e.
+  validb e = true /\ lamokb e = true /\ noaddb e = false /\ exists e', parse (pr e) = ROk (PE e') [] /\ e' <> e.
 Proof. intros e. repeat split; try reflexivity. eexists. split; [vm_compute; reflexivity|vm_compute; discriminate]. Qed.
 
 (* in every case the structure modulo parentheses is kept *)
 Theorem C19_structure_kept : forall e,
-  validb e = true -> posokb e = true -> exists e', parse (pr e) = ROk (PE e') [] /\ strip e' = strip e.
-Proof. intros e V K. exists (norm e). split; [now apply roundtrip_closed|apply (strip_norm (sz e)); auto]. Qed.
+  validb e = true -> lamokb e = true -> exists e', parse (pr e) = ROk (PE e') [] /\ strip e' = strip e.
+Proof. intros e V K. exists (norm e). split; [now apply roundtrip_lamok_closed|apply (strip_norm (sz e)); auto]. Qed.
 
 (* non-vacuity: "(a + b) * -c[f(a, b...)]" as the parser returns it *)
 Definition parsed : expr :=
   EBin xgo_MUL (EPar (EBin xgo_ADD (EId [97%N]) (EId [98%N])))
        (EUn xgo_SUB (EIdx (EId [99%N]) (ECall (EId [102%N]) [EId [97%N]; EId [98%N]] true))).
-Example C19_example : validb parsed = true /\ posokb parsed = true /\ noaddb parsed = true /\
+Example C19_example : validb parsed = true /\ lamokb parsed = true /\ noaddb parsed = true /\
   parse (pr parsed) = ROk (PE parsed) [].
 Proof. vm_compute. auto 10. Qed.
 
